@@ -8,6 +8,9 @@ B. optim_flat end-to-end with a scripted optimizer (positions prescribed per ite
    observed validation losses.
 C. mini-batching: the key handed to the batch generator in every iteration is captured and compared
    with the model's key path (carry advanced); batches must be re-drawn.
+D. optim_flat end-to-end with several NAMED parameters in non-alphabetical order: returned position and
+   position history compared name by name with StopperPos.optim_flat_full (c20_pos.py).
+E. _generate_batch_indices against StopperPos.batch_indices (c20_pos.py).
 """
 from __future__ import annotations
 
@@ -19,11 +22,13 @@ from fractions import Fraction
 from unittest import mock
 
 from . import common
+from . import c20_pos
 from .common import lst, blit, natlit, qlit, zlit
 
-HEADER = """From Coq Require Import List ZArith NArith QArith Bool.
+HEADER = """From Coq Require Import String.
+From Coq Require Import List ZArith NArith QArith Bool.
 Import ListNotations.
-From LV Require Import Goose.Stopper Goose.CorrC20.
+From LV Require Import Goose.Stopper Goose.StopperPos Goose.CorrC20.
 """
 
 TOLS = [Fraction(0), Fraction(1, 2), Fraction(1)]
@@ -414,6 +419,8 @@ def run(ctx) -> int:
     a = part_a(ctx)
     b = part_b(ctx, rnd)
     c = part_c(ctx, rnd)
+    d = c20_pos.part_d(ctx, rnd)
+    e = c20_pos.part_e(ctx, rnd, c)
     fails = []
     r = oracle_a(a)
     if r:
@@ -426,27 +433,47 @@ def run(ctx) -> int:
         r = oracle_c(x)
         if r:
             fails.append(r)
+    for x in d:
+        r = c20_pos.oracle_d(x)
+        if r:
+            fails.append(r)
+    for x in e:
+        r = c20_pos.oracle_e(x)
+        if r:
+            fails.append(r)
     disagree = []
     if built:
-        paths = emit_a(ctx, a) + [emit_b(ctx, b), emit_c(ctx, c)]
+        paths = emit_a(ctx, a) + [emit_b(ctx, b), emit_c(ctx, c), c20_pos.emit_d(ctx, d, HEADER), c20_pos.emit_e(ctx, e, HEADER)]
         res = ctx.compile_shards(paths)
         for p, (ok, out) in res.items():
             if not ok:
                 common.log(f"shard {p} failed:\n{out[-800:]}")
                 disagree.append(p.split("/")[-1])
+                if p.endswith("cases_D.v"):
+                    common.log("part D clauses (0 = agrees, 1 error kind, 2 iteration, 3 best, 4 position by name, "
+                               "5 position history, 6 loss history): " + c20_pos.diagnose_d(ctx, d, HEADER))
         if disagree:
             ctx.broken.append("correspondence lemma shard_ok in " + ", ".join(sorted(disagree)))
     ctx.cov["rule"] = ("A: every loss history of the stated length over {0,1,2,3} x every i x 38 stopper configurations "
                        "(exhaustive; distinct = histories on which stop_early fires, all distinct); B: optim_flat runs with "
-                       "scripted positions (distinct scripts); C: mini-batch runs with captured keys")
-    ctx.tested_not_proved.append("B: returned model state equals direct assignment of the returned position (float tolerance 1e-4)")
+                       "scripted positions (distinct scripts); C: mini-batch runs with captured keys; D: optim_flat runs with 2-3 named "
+                       "parameters handed over in non-alphabetical order (distinct name lists x scripts); E: batch index calls "
+                       "(distinct (n, batch_size, permutation))")
+    ctx.tested_not_proved.append("B, D: returned model state equals direct assignment of the returned position (float tolerance 1e-4; "
+                                 "extract_position of the returned state equals the returned position exactly)")
+    ctx.tested_not_proved.append("D: jax rebuilds dicts that pass through tree.map / while_loop with sorted keys (model: pytree); "
+                                 "the scripted optimizer produces the prescribed positions")
+    ctx.tested_not_proved.append("E: jax.random.permutation(key, n) is a permutation of 0..n-1 (hypothesis of C20_batches_partition, "
+                                 "checked on every drawn permutation)")
+    ctx.assume.append("C20_position_restored: parameter names distinct, 1 <= patience <= max_iter, restore_best_position only with save_position_history")
     seen = set()
     for f in fails:
         if f["why"][:60] in seen or len(seen) >= 3:
             continue
         seen.add(f["why"][:60])
         ctx.violation(f["why"], f, True, f.get("klass"))
-    if (disagree or not thm_ok or forb) and not fails:
+    # a broken lemma / shard must be reported even when the only direct-oracle failure is the known finding
+    if (disagree or not thm_ok or forb) and not [f for f in fails if not f.get("klass")]:
         ctx.violation("; ".join(ctx.broken), {"broken": ctx.broken}, False, None)
     return ctx.finish()
 
@@ -481,6 +508,10 @@ def replay(rp) -> int:
         obs = run_b(int(c["max_iter"]), int(c["patience"]), Fraction(c["atol"]), Fraction(c["rtol"]), bool(c["prune"]),
                     [Fraction(x) for x in c["script"]], bool(c.get("validation", True)), bool(c.get("restore", True)))
         verdict = oracle_b(obs)
+    elif "case" in r and r["case"].get("part") == "D":
+        verdict = c20_pos.replay_d(r["case"])
+    elif r.get("part") == "E":
+        verdict = c20_pos.replay_e(r)
     elif "n" in r and "batch_size" in r:
         obs = run_c(int(r["n"]), int(r["batch_size"]), int(r.get("iterations", 5)), int(r["seed"]))
         verdict = oracle_c(obs)
